@@ -271,6 +271,10 @@ func orchestrate(id, tier string) int {
 		}
 		cmd := exec.Command(self, "replay", id, fd.Witness)
 		cmd.Env = append(os.Environ(), "VCHECK_QUIET=1")
+		if m.Race {
+			// a race reported while replaying the witness makes the child exit with status 1
+			cmd.Env = append(cmd.Env, "GORACE=exitcode=1 halt_on_error=0")
+		}
 		out, err := cmd.CombinedOutput()
 		violates := false
 		if ee, ok := err.(*exec.ExitError); ok && ee.ExitCode() == 1 {
